@@ -5,7 +5,9 @@ import json
 
 def key_of(tr, l, clause):
     ev = tr["events"][l - 1]["ev"] if 0 < l <= len(tr["events"]) else "?"
-    return "trace:%s:%s" % (clause, ev)
+    # cold reads on a node whose guessed segment size is smaller than the real one: known finding of C04
+    suffix = ":guess_smaller_than_real" if tr.get("consts", {}).get("guess") == "lt" else ""
+    return "trace:%s:%s%s" % (clause, ev, suffix)
 
 
 def what_of(prefix):
